@@ -32,6 +32,7 @@ N(t, n, to, hl, kids) == NM(t, n, to, hl, kids, "ok")
 \*  "f"  file x          "s" symlink x -> outdir      "t" symlink x -> outfile
 \*  "d"  dir x {file y}  "e" file named "../../esc"   "u" file named ".."
 \*  "S"  symlink x -> outdir with mode 0777 (no symlink bit)   "T" symlink x -> outfile with mode 0777 (no symlink bit)
+\*  "D"  dir x {dir y {file z}}    "q" dir x {symlink y -> outdir}    "Q" dir x {fifo y}    "p" fifo x
 KidSeqs == { <<>>, <<"f">>, <<"s">>, <<"f","t">>, <<"s","f">>, <<"d">>, <<"s","d">>, <<"e">>, <<"u">> }
 
 \* nodes that all use the name "a" (plus the hard-link partner "b"): sequences of them give every
@@ -54,6 +55,14 @@ InconsAlpha ==
   \cup { NM("dir", "a", "", FALSE, k, m) : k \in {<<"f">>, <<"s">>, <<"S">>, <<"T">>}, m \in {"symbit", "perm", "ok"} }
   \cup { NM(t, "a", "", FALSE, <<>>, m) : t \in {"fifo", "chardev"}, m \in {"ok", "symbit", "dirbit"} }
 
+\* honest-looking deeper trees (three levels, non-regular leaves): what include filters on directories and on
+\* special files below unselected parents need
+DeepAlpha == { N("dir", "a", "", FALSE, k) : k \in {<<"D">>, <<"q">>, <<"Q">>, <<"p">>, <<"d">>, <<"s">>, <<"f">>, <<"p", "d">>} }
+DeepTrees ==
+  { <<x>> : x \in DeepAlpha }
+  \cup { <<N("file", "b", "", TRUE, <<>>), x>> : x \in DeepAlpha }
+  \cup { <<x, N("symlink", "b", "outdir", FALSE, <<>>)>> : x \in DeepAlpha }
+
 SeqsUpTo(S, k) == UNION {[1..n -> S] : n \in 1..k}
 
 InconsTrees ==
@@ -68,6 +77,7 @@ Trees ==
   \cup { <<N("dir", "a", "", FALSE, <<"f">>), x>> : x \in InvalidAlpha }
   \cup { <<N("dir", "a", "", FALSE, k)>> : k \in KidSeqs }
   \cup InconsTrees
+  \cup DeepTrees
 
 
 \* ---- environments --------------------------------------------------------
@@ -75,9 +85,18 @@ Trees ==
 PreItems == {"absent", "file", "symlink-dir", "symlink-file", "hardlink", "dir"}
 Pres == { [a |-> p, x |-> "absent"] : p \in PreItems \ {"dir"} } \cup { [a |-> "dir", x |-> q] : q \in PreItems }
 Overwrites == {"always", "if-changed", "if-newer", "never"}
-Selects == {"all", "leaves"}     \* leaves: only non-directories are selected (like --include of deep files)
-Envs == { [pre |-> p, overwrite |-> o, delete |-> d, sparse |-> s, select |-> sel]
-            : p \in Pres, o \in Overwrites, d \in BOOLEAN, s \in BOOLEAN, sel \in Selects }
+\* selections (what --include would select; everything else is unselected, ancestors are only traversed):
+\*   all       everything                  leaves   every non-directory (like --include of deep files)
+\*   dir-ax    the directory /a/x and everything below it (a directory below an unselected parent)
+\*   dir-axy   the directory /a/x/y and everything below it (two levels below)
+\*   special   only the non-regular leaves (symlinks, fifos, devices), wherever they are
+Selects == {"all", "leaves", "dir-ax", "dir-axy", "special"}
+\* outx: the outside directory the symlinks point to already contains directories named like the snapshot's
+\* (outside/dir/x, outside/dir/x/y, outside/dir/y); only meaningful with a pre-existing symlink to that directory
+OutxOf(p) == IF p.a = "symlink-dir" \/ p.x = "symlink-dir" THEN BOOLEAN ELSE {FALSE}
+Envs == UNION { { [pre |-> p, overwrite |-> o, delete |-> d, sparse |-> s, select |-> sel, outx |-> ox]
+                    : o \in Overwrites, d \in BOOLEAN, s \in BOOLEAN, sel \in Selects, ox \in OutxOf(p) }
+                : p \in Pres }
 
 \* ---- the property ----------------------------------------------------------
 Inside(path) == Len(path) >= 1 /\ path[1] = "target"
